@@ -623,20 +623,6 @@ Section GraphFacts.
 End GraphFacts.
 
 (* ================================================================== 4. the cut function satisfies the facts *)
-Lemma find_label_from_app l : forall p1 p2 k acc,
-  find_label_from l (p1 ++ p2) k acc = find_label_from l p2 (k + length p1) (find_label_from l p1 k acc).
-Proof.
-  induction p1 as [|i p1 IH]; intros p2 k acc; simpl.
-  - rewrite Nat.add_0_r. reflexivity.
-  - rewrite IH. f_equal. lia.
-Qed.
-
-Lemma find_label_from_errs l : forall m k acc, find_label_from l (repeat ERRI m) k acc = acc.
-Proof. induction m as [|m IH]; intros k acc; simpl; [reflexivity | apply IH]. Qed.
-
-Lemma find_label_errs p m l : find_label (p ++ repeat ERRI m) l = find_label p l.
-Proof. unfold find_label. rewrite find_label_from_app, find_label_from_errs. reflexivity. Qed.
-
 Section CutFacts.
   Variables (p : prog) (t : teal) (path : list nat).
   Hypothesis Hparse : parse_teal p = Ok t.
